@@ -62,7 +62,7 @@ def _parallel_dot_cumsum(
   """Parallel implementation of dot cumsum using lax primitives."""
   partials = _single_device_dot_cumsum(x, axis=axis, reverse=reverse)
   last_partial = lax.index_in_dim(partials, 0 if reverse else -1, axis)
-  sums = lax.all_gather(last_partial, axis_name, tiled=True)
+  sums = lax.all_gather(last_partial, axis_name, tiled=False)
   axis_index = lax.axis_index(axis_name)
   op = jnp.greater if reverse else jnp.less
   total = partials
